@@ -38,7 +38,7 @@ def main():
                     print('     %s spec: %s' % (f, json.dumps(d['expected'].get(top))[:700]))
                     print('     %s code: %s' % (f, json.dumps(d['observed'].get(top))[:700]))
                 for st in (d.get('steps') or [])[:d['step']]:
-                    print('        ', json.dumps({a: b for a, b in st.items() if a not in ('p', 'dev')})[:200], st['p']['r']['c'])
+                    print('        ', json.dumps({a: b for a, b in st.items() if a not in ('p', 'dev')})[:200], st['p']['r']['c'] if 'p' in st else '')
                 if len(seen) >= int(os.environ.get('SCAN_SHOW')):
                     break
 main()
